@@ -95,7 +95,7 @@ Proof.
   assert (Hkeep : forall st', lookup k (idx s') = lookup k (idx s) \/ lookup k (idx s') = None ->
                   st' = st -> cur s' k = None \/ cur s' k = st').
   { intros st' [E|E] ->; [rewrite (Hsame E); exact Hc|left; auto]. }
-  destruct o as [k' v w hsh low ph h vs|k' h|k' h|k'|k' h| |cap vs|vs|h h'|h]; cbn [step kind_of] in *.
+  destruct o as [k' v w hsh low ph h vs|k' h|k' h|k'|k' h| |cap vs|vs|vs|h h'|h]; cbn [step kind_of] in *.
   - (* insert *)
     destruct (N.eqb_spec k' k) as [->|Hne]; cbn [reg_after].
     + destruct ph.
@@ -131,6 +131,8 @@ Proof.
     inversion Hs; subst. cbn [reg_after]. left. apply Hnone. rewrite clear_idx. reflexivity.
   - cbn [reg_after]. apply Hkeep; auto. unfold resize in Hs. destruct (evict_oracle_lookup _ _ _ _ _ k Hs); auto.
   - cbn [reg_after]. apply Hkeep; auto. unfold evict_all in Hs. destruct (evict_oracle_lookup _ _ _ _ _ k Hs); auto.
+  - cbn [reg_after]. apply Hkeep; auto. unfold flush in Hs.
+    destruct (flush_oracle_frame _ _ _ _ Hs) as (_ & _ & _ & _ & _ & E). right. rewrite E. reflexivity.
   - inversion Hs; subst. cbn [reg_after]. apply Hkeep; auto. left. rewrite clone_idx. reflexivity.
   - inversion Hs; subst. cbn [reg_after]. apply Hkeep; auto. left. rewrite drop_idx. reflexivity.
 Qed.
